@@ -103,6 +103,11 @@ pub(crate) fn cl_value(i: usize) -> (HeaderValue, bool) {
 }
 
 fn c17_menu_case(oh: usize, ah: bool, ocl: usize, acl: bool) {
+    c17_menu_case_te(oh, ah, ocl, acl, 0)
+}
+
+/// te: 0 absent, 1 original "chunked", 2 original "Chunked" (mixed case), 3 original "gzip"
+fn c17_menu_case_te(oh: usize, ah: bool, ocl: usize, acl: bool, te: usize) {
     let post: bool = kani::any();
     let skip: bool = kani::any();
     let with_body: bool = kani::any();
@@ -120,6 +125,14 @@ fn c17_menu_case(oh: usize, ah: bool, ocl: usize, acl: bool) {
         cl_ok = ok;
         cl_val = if ocl == 1 { 5 } else { 0 };
     }
+    if te == 1 {
+        req.headers_mut().append(TRANSFER_ENCODING, HeaderValue::from_static("chunked"));
+    } else if te == 2 {
+        req.headers_mut().append(TRANSFER_ENCODING, HeaderValue::from_static("Chunked"));
+    } else if te == 3 {
+        req.headers_mut().append(TRANSFER_ENCODING, HeaderValue::from_static("gzip"));
+    }
+    let te_chunked = te == 1 || te == 2;
     let mut ar = mk_amended(req);
     if ah {
         ar.set_header(HOST, HeaderValue::from_static("b.test")).unwrap();
@@ -138,7 +151,7 @@ fn c17_menu_case(oh: usize, ah: bool, ocl: usize, acl: bool) {
     // with a single Host it is non-textual only in original-menu entry 2
     let host_nontext = n_host == 1 && oh == 2;
     let cl_bad = n_cl == 1 && ocl > 0 && !cl_ok;
-    let has_body = n_cl == 1 || with_body;
+    let has_body = n_cl == 1 || with_body || te_chunked;
     let body_bad = !skip && (post != has_body);
     let expect_err = n_host > 1 || n_cl > 1 || host_nontext || cl_bad || body_bad;
     match r {
@@ -156,8 +169,10 @@ fn c17_menu_case(oh: usize, ah: bool, ocl: usize, acl: bool) {
             assert!(!cl_bad, "C17/non-numeric-content-length-rejected");
             assert!(!body_bad, "C17/body-vs-method-rejected");
             assert!(info.req_host_header == (n_host == 1), "C02/host-flag-iff-host-present");
-            assert!(info.req_body_header == (n_cl == 1), "C02/framing-flag-iff-framing-header-present");
-            if n_cl == 1 {
+            assert!(info.req_body_header == (n_cl == 1 || te_chunked), "C02/framing-flag-iff-framing-header-present");
+            if te_chunked {
+                assert!(info.body_mode.is_chunked(), "C02/chunked-header-selects-chunked-mode");
+            } else if n_cl == 1 {
                 assert!(bh::writer_left(&info.body_mode) == Some(cl_val), "C02/sized-mode-carries-callers-length");
             } else {
                 assert!(info.body_mode.is_chunked() == with_body, "C02/default-mode-as-wanted");
@@ -169,10 +184,10 @@ fn c17_menu_case(oh: usize, ah: bool, ocl: usize, acl: bool) {
     core::mem::forget(ar);
 }
 
-//@ props: C17
+//@ props: C17 C02
 //@ tier: quick
 //@ unwind: 5
-//@ unwindset: memcmp=9 from_static=8 eq_ignore_ascii_case=18 3all5check=18 eq_ignore_ascii_case=18 extend_with=10 FnvHasher=10 to_str=10
+//@ unwindset: memcmp=9 from_static=8 compare_lowercase_ascii=9 eq_ignore_ascii_case=18 3all5check=18 eq_ignore_ascii_case=18 extend_with=10 FnvHasher=10 to_str=10
 //@ timeout: 900|3000
 //@ mem: 16|40
 //@ encodes: AmendedRequest::analyze (Host / Content-Length cardinality, text / numeric checks, framing selection, body-vs-method), AmendedRequest::headers, headers_get_all, set_header, HeaderMap::append/iter
@@ -516,4 +531,25 @@ fn c13_min_authorization_kept() {
 #[kani::proof]
 fn c13_min_unrelated_kept() {
     c13_min_case(4, false);
+}
+
+//@ like: c17_cell_no_headers
+//@ tier: thorough
+#[kani::proof]
+fn c17_cell_te_chunked() {
+    c17_menu_case_te(1, false, 0, false, 1);
+}
+
+//@ like: c17_cell_no_headers
+//@ tier: thorough
+#[kani::proof]
+fn c17_cell_te_mixedcase() {
+    c17_menu_case_te(0, false, 0, false, 2);
+}
+
+//@ like: c17_cell_no_headers
+//@ tier: thorough
+#[kani::proof]
+fn c17_cell_te_gzip() {
+    c17_menu_case_te(0, false, 0, false, 3);
 }
